@@ -5,8 +5,6 @@ import (
 	"strconv"
 	"time"
 
-	"golang.org/x/exp/maps"
-
 	"github.com/tdakkota/docker-logql/internal/iterators"
 	"github.com/tdakkota/docker-logql/internal/lokiapi"
 	"github.com/tdakkota/docker-logql/internal/otelstorage"
@@ -26,6 +24,8 @@ func ReadStepResponse(iter iterators.Iterator[Step], instant bool) (s lokiapi.Qu
 	var (
 		agg          Step
 		matrixSeries map[GroupingKey]lokiapi.Series
+		// seriesOrder keeps series in order of first appearance.
+		seriesOrder []GroupingKey
 	)
 	for {
 		if !iter.Next(&agg) {
@@ -62,6 +62,7 @@ func ReadStepResponse(iter iterators.Iterator[Step], instant bool) (s lokiapi.Qu
 			ser, ok := matrixSeries[key]
 			if !ok {
 				ser.Metric.SetTo(s.Set.AsLokiAPI())
+				seriesOrder = append(seriesOrder, key)
 			}
 
 			ser.Values = append(ser.Values, lokiapi.FPoint{
@@ -75,8 +76,12 @@ func ReadStepResponse(iter iterators.Iterator[Step], instant bool) (s lokiapi.Qu
 		return s, err
 	}
 
+	result := make(lokiapi.Matrix, 0, len(seriesOrder))
+	for _, key := range seriesOrder {
+		result = append(result, matrixSeries[key])
+	}
 	s.SetMatrixResult(lokiapi.MatrixResult{
-		Result: maps.Values(matrixSeries),
+		Result: result,
 	})
 	return s, nil
 }
